@@ -12,11 +12,20 @@ from .core import AnalysisError, Report, finish
 from .index import RepoIndex
 
 
+def _reset_caches() -> None:
+    """the per-tree memo tables (source texts, views, axis analyses) belong to one index: a
+    process that analyses many trees in turn (self-test workers) drops them between trees"""
+    from . import axes, core, inline, posenum, view
+    for tbl in (axes._CACHE, core._SRC_CACHE, inline._NAMED, posenum._GEO, view._CACHE):
+        tbl.clear()
+
+
 def analyse(pid: str, repo: str, tier: str = 'quick'):
     """run the rules of one property on a tree; returns (code, report, message).  Writes
     nothing: used by the self-test on scratch variants."""
     mod = importlib.import_module(f'gvstatic.rules.{pid.lower()}')
     report = Report(pid, tier, repo)
+    _reset_caches()
     try:
         index = RepoIndex(repo, report)
         mod.run(index, report)
